@@ -10,6 +10,7 @@ import (
 	"unicode"
 
 	"perkeep.org/pkg/blob"
+	"perkeep.org/pkg/jsonsign"
 
 	"verifharness/hk"
 )
@@ -377,8 +378,24 @@ func (g *gen) signDoc(ud unsignedDoc, at time.Time) *signedDoc {
 			}
 		}
 	}
-	line := fmt.Sprintf("sign %s %s %d", hk.Hex([]byte(ud.text)), hk.Hex([]byte(armored)), at.Unix())
-	out := g.op(line)
+	var line, out string
+	if kb != nil && hasSecret && !kb.deterministic() {
+		// DSA / ECDSA signatures differ from call to call: run the real Sign first and hand the model the
+		// library's answer in the shape reArmor gives it (the RSA cases tie Sign's own armor stripping)
+		out = hk.Guard(func() string { return g.w.signOp(ud.text, at) })
+		armored = ""
+		if d, ok := hk.UnHex(strings.TrimPrefix(out, "ok ")); ok && strings.HasPrefix(out, "ok ") {
+			if i := bytes.LastIndex(d, []byte(sep)); i >= 0 && len(d) >= i+len(sep)+3 {
+				armored = jsonsign.VerifReArmor(string(d[i+len(sep) : len(d)-3]))
+			}
+		}
+		line = fmt.Sprintf("sign %s %s %d", hk.Hex([]byte(ud.text)), hk.Hex([]byte(armored)), at.Unix())
+		r.Op(line, out)
+		r.Hit("sign:randomized-algorithm(" + algoName(kb.pub.PubKeyAlgo) + ")")
+	} else {
+		line = fmt.Sprintf("sign %s %s %d", hk.Hex([]byte(ud.text)), hk.Hex([]byte(armored)), at.Unix())
+		out = g.op(line)
+	}
 	if strings.HasPrefix(out, "ok ") {
 		r.Hit("sign:ok")
 	} else {
@@ -701,6 +718,16 @@ func (g *gen) crafted(sd *signedDoc) {
 		vi := x(t+sep+s2+"\"}\n", orig)
 		expect(vi, false, "signature-by-other-key")
 		r.Hit("resign:other-key-same-payload-rejected")
+		for _, f := range g.signers() {
+			if f == other || f == sd.signer {
+				continue
+			}
+			if af, err := armoredDetachSignCfg(f.ent, t, g.signCfg(sd.at)); err == nil {
+				g.logSigned(f.ref, t)
+				expect(x(t+sep+stripArmorRef(af)+"\"}\n", orig), false, "signature-by-other-key-"+algoName(f.pub.PubKeyAlgo))
+				r.Hit("resign:forged-by-" + algoName(f.pub.PubKeyAlgo) + "-key-rejected")
+			}
+		}
 		// re-signed properly by the other key: the payload names the other key
 		t2 := strings.Replace(t, sd.signer.ref.String(), other.ref.String(), -1)
 		if t2 != t && plainSigner {
@@ -840,6 +867,10 @@ func Run(r *hk.Run) {
 		g.signDoc(unsignedDoc{text: u}, time.Unix(1400000000, 0))
 	}
 
+	// (1c) keys and signatures of every algorithm the library knows; every way it can refuse a signature
+	g.algorithmMatrix()
+	g.packetVariants()
+
 	// (2) generated objects: sign, verify, mutate
 	nDocs, nFullSweep, nSetSweep, nRand := 40, 1, 4, 150
 	if th {
@@ -851,6 +882,10 @@ func Run(r *hk.Run) {
 	var texts []string
 	for i := 0; i < nDocs; i++ {
 		k := g.key[rnd.Intn(2)]
+		if i >= 8 && rnd.Chance(30) {
+			all := g.signers()
+			k = all[rnd.Intn(len(all))]
+		}
 		fl := flavours[rnd.Intn(len(flavours))]
 		if i < 6 {
 			fl = ""
